@@ -408,3 +408,53 @@ impl Ord for Kc {
         self.key.cmp(&o.key)
     }
 }
+
+// ---------------------------------------------------------------------------------------------
+/// Element types of unusual size / alignment (16 bytes; 3 bytes with alignment 1): plain `Copy`
+/// values like `u32`, the id is the value.
+impl Elem for u128 {
+    const TRACKED: bool = false;
+    const ZST: bool = false;
+    const NAME: &'static str = "U128";
+    fn mint(key: u8) -> Self {
+        let n = with(|l| {
+            l.zs_created += 1;
+            l.zs_created
+        });
+        ((n as u128) << 8) | key as u128 | (0xA5u128 << 120)
+    }
+    fn id(&self) -> u64 {
+        *self as u64
+    }
+    fn key(&self) -> u8 {
+        (*self & 0xff) as u8
+    }
+    fn ord_key(&self) -> u64 {
+        *self as u64
+    }
+}
+
+#[derive(Clone, Copy, Default, PartialEq, Eq, PartialOrd, Ord, Hash, Debug)]
+pub struct B3(pub [u8; 3]);
+impl Elem for B3 {
+    const TRACKED: bool = false;
+    const ZST: bool = false;
+    const NAME: &'static str = "B3";
+    fn mint(key: u8) -> Self {
+        let n = with(|l| {
+            l.zs_created += 1;
+            l.zs_created
+        });
+        let v = (((n as u32) << 2) | (key as u32 & 3)) & 0xff_ffff;
+        B3([(v >> 16) as u8, (v >> 8) as u8, v as u8])
+    }
+    fn id(&self) -> u64 {
+        ((self.0[0] as u64) << 16) | ((self.0[1] as u64) << 8) | self.0[2] as u64
+    }
+    fn key(&self) -> u8 {
+        self.0[2] & 3
+    }
+    fn ord_key(&self) -> u64 {
+        self.id()
+    }
+}
